@@ -75,6 +75,8 @@ def _mk_solver(pc, extra, timeout_ms):
 
 QUICK_MS = int(os.environ.get("PYVC_QUICK_MS", "4000"))
 
+from .engine import _has_quantifier as _has_q
+
 _str_cache = {}
 _sym_cache = {}
 
@@ -270,7 +272,7 @@ def watch_terms(ev, env, ghosts, maxlist=8):
     return watch
 
 
-def verify_contract(contract: Contract, registry: Registry, timeout_ms=30000, log=None, refute=None):
+def verify_contract(contract: Contract, registry: Registry, timeout_ms=30000, log=None, refute=None, only=None):
     """returns dict(results=[ObResult...], paths=int, undecided_paths=[reasons], sha=...)"""
     t_start = time.time()
     fdef = source.find_def(contract.file, contract.qualname)
@@ -288,16 +290,27 @@ def verify_contract(contract: Contract, registry: Registry, timeout_ms=30000, lo
     def record(ob, watch):
         nonlocal solver_ms
         kind = "obligation" if ob.expect == "unsat" else ("reach" if "/reach." in ob.name else "canary")
+        if only is not None and kind == "obligation" and ob.name not in only:
+            return
         res = results.get(ob.name)
         if res is None:
             res = results[ob.name] = ObResult(ob.name, kind)
             res.note, res.line = ob.note, ob.line
         res.instances += 1
-        if res.status in ("refuted",) and kind == "obligation":
-            return
+        if res.status in ("refuted", "undecided", "candidate") and kind == "obligation":
+            return   # one failing path instance decides the status; do not burn more solver budget
         if kind != "obligation" and res.status in ("refuted", "reachable"):
             return
         solver, r, ms, be = _solve(ob.pc, ob.goal, tmo, ob.expect)
+        candidate = False
+        if refute is not None and r == "unknown":
+            # bounded refuter: look for a candidate counter-model with the quantifier-free premises only.  Such a
+            # model may be spurious (premises were dropped); it only supplies inputs for the native replay, which
+            # decides.  It is never counted as a refutation by itself.
+            qf = [f for f in ob.pc if not _has_q(f)]
+            s2 = _mk_solver(qf, z3.Not(ob.goal) if ob.expect == "unsat" else ob.goal, min(tmo, 5000))
+            if str(s2.check()) == "sat":
+                solver, r, candidate = s2, "sat", True
         if be != "z3-5.1(api)":
             res.backend = be
         if os.environ.get("PYVC_DEBUG"):
@@ -321,7 +334,7 @@ def verify_contract(contract: Contract, registry: Registry, timeout_ms=30000, lo
                 if res.status is None:
                     res.status = "discharged"
             elif r == "sat":
-                res.status = "refuted"
+                res.status = "candidate" if candidate else "refuted"
                 try:
                     res.model = _model_values(solver.model(), watch)
                 except Exception:
@@ -443,6 +456,8 @@ def verify_contract(contract: Contract, registry: Registry, timeout_ms=30000, lo
         except Unsupported as u:
             undecided_paths.append(str(u))
         except z3.Z3Exception as ze:
+            if os.environ.get("PYVC_DEBUG"):
+                traceback.print_exc()
             undecided_paths.append("z3 exception: %s" % ze)
         worklist.extend(run.alternatives)
         if os.environ.get("PYVC_DEBUG"):
